@@ -28,28 +28,31 @@ SameW(s) == pos = s.pos /\ status = s.st /\ out = s.out
 LoadR(s) == ag' = s.h /\ dag' = s.h /\ hist' = 0
 SameR(s) == ag = s.h
 TraceInit == /\ l = 2 /\ TraceLog[1].ev = "reset"
-             /\ stream = <<>> /\ last = InitLast /\ rlast = InitRLast /\ remote = FALSE /\ hist = 0
+             /\ stream = <<>> /\ last = InitLast /\ rlast = InitRLast /\ remote = FALSE /\ hist = 0 /\ CFrozen
              /\ IF TraceLog[1].fam = "w"
                 THEN pos = TraceLog[1].post.pos /\ status = TraceLog[1].post.st /\ out = TraceLog[1].post.out /\ ag = "" /\ dag = ""
                 ELSE pos = 1 /\ status = "ok" /\ out = <<>> /\ ag = TraceLog[1].post.h /\ dag = TraceLog[1].post.h
 Reset == /\ l <= Len(TraceLog) /\ TraceLog[l].ev = "reset" /\ l' = l + 1
-         /\ last' = InitLast /\ rlast' = InitRLast /\ remote' = FALSE
+         /\ last' = InitLast /\ rlast' = InitRLast /\ remote' = FALSE /\ UNCHANGED cvars
          /\ IF TraceLog[l].fam = "w" THEN LoadW(TraceLog[l].post) /\ UNCHANGED <<ag, dag, hist>>
             ELSE LoadR(TraceLog[l].post) /\ UNCHANGED <<stream, pos, out, status>>
 StepW == /\ l <= Len(TraceLog) /\ TraceLog[l].ev = "step" /\ TraceLog[l].fam = "w" /\ l' = l + 1
          /\ SameW(TraceLog[l].pre) /\ LoadW(TraceLog[l].post)
          /\ last' = TraceLog[l].e
-         /\ UNCHANGED <<ag, dag, hist, remote, rlast>>
+         /\ UNCHANGED <<ag, dag, hist, remote, rlast>> /\ UNCHANGED cvars
 StepR == /\ l <= Len(TraceLog) /\ TraceLog[l].ev = "step" /\ TraceLog[l].fam = "r" /\ l' = l + 1
          /\ SameR(TraceLog[l].pre) /\ LoadR(TraceLog[l].post)
          /\ rlast' = TraceLog[l].e /\ remote' = TraceLog[l].e.remote
-         /\ UNCHANGED <<stream, pos, out, status, last>>
+         /\ UNCHANGED <<stream, pos, out, status, last>> /\ UNCHANGED cvars
 TraceNext == Reset \/ StepW \/ StepR
 TraceSpec == TraceInit /\ [][TraceNext]_tvars
 
 IsW == TraceLog[l].ev = "step" /\ TraceLog[l].fam = "w"
 IsR == TraceLog[l].ev = "step" /\ TraceLog[l].fam = "r"
-StreamOK == C12_Stream(last'.items, last'.nrep, status', last'.pan, last'.big)
+\* one served connection: alone (conc <= 1: the stream-level outcome) or next to conc - 1 other connections to the same
+\* server (driven in lock step, so kinds[i] is the kind of the response to the i-th frame)
+StreamOK == IF last'.conc > 1 THEN C12_Conn(last'.items, last'.kinds, last'.nrep, status', last'.pan, last'.big)
+            ELSE C12_Stream(last'.items, last'.nrep, status', last'.pan, last'.big)
 TC12 == [][IsW => StreamOK]_tvars
 TC13 == [][IsR => C13_Step]_tvars
 Rep(name, P) == P \/ PrintT(<<"REJ", name, l>>)
